@@ -656,6 +656,11 @@ func init() {
 				}
 				cs = append(cs, c)
 			}
+			// raw streams and hostile messages against real running nodes, in a
+			// worker built with the race detector (which also turns on checkptr)
+			for i := 0; i < raceSoaks(tier); i++ {
+				cs = append(cs, CaseSpec{Kind: "hostile", P: map[string]int64{"msgs": msgs / 2, "warm": int64(80 + (i*13)%120)}, S: map[string]string{"mode": "tcp", "race": "1"}})
+			}
 			return cs
 		},
 		Run: func(cs CaseSpec) *CaseResult {
